@@ -673,6 +673,19 @@ func Rebuild(t *Term, args []*Term) *Term {
 		if len(args) == 2 {
 			return indexTerm(args[0], args[1])
 		}
+	case "dyncall":
+		if len(args) >= 1 {
+			return DynCall(args[0], args[1:], t.Pos)
+		}
+	case OUn:
+		if t.Str == "!" && len(args) == 1 {
+			return NotCond(args[0]) // !(a == b) after a substitution is a != b
+		}
+	case OField:
+		// a field of a struct value that is now spelled out (a callee's parameter bound to the caller's literal)
+		if fv, ok := t.Obj.(*types.Var); ok && len(args) == 1 {
+			return FieldOf(args[0], fv)
+		}
 	case OBuiltin:
 		if t.Str == "len" && len(args) == 1 {
 			if n, ok := ConstLen(args[0]); ok {
@@ -687,6 +700,19 @@ func Rebuild(t *Term, args []*Term) *Term {
 	nt.key = ""
 	nt.Args = args
 	return &nt
+}
+
+// DynCall is a call through a function value; when the value is a method value (x.M) it is the static call of M
+// on the bound receiver.
+func DynCall(fn *Term, args []*Term, pos token.Pos) *Term {
+	if fn.Op == OClosure && len(fn.Args) == 1 {
+		if m, ok := fn.Obj.(*types.Func); ok {
+			t := Call(m, append([]*Term{fn.Args[0]}, args...)...)
+			t.Pos = pos
+			return t
+		}
+	}
+	return &Term{Op: "dyncall", Args: append([]*Term{fn}, args...), Pos: pos}
 }
 
 // ConstLen: the length of a slice term whose construction is spelled out on the path: an element list, nil,
